@@ -658,3 +658,29 @@ PROPS["C15"]["assumptions"] = PROPS["C15"]["assumptions"] + [
     "an expiry update that moves the due time by at most 1 s may be ignored, SETNX on a held key waits for the connection time-out",
     "engine T: six listed known findings are excluded by construction while listed (counted in the evidence)",
 ]
+
+# C03 over the text protocol (engine D executor; harness/server/c03t_*.go, notes/C03T.md)
+PROPS["C03"]["units"] += [
+    rapid_unit("text-replies", "^TestC03_TextReplies$", quick={"checks": 16000, "shards": 16, "timeout_s": 900},
+               thorough={"checks": 200000, "shards": 16, "timeout_s": 3600}),
+    plain_unit("replay-C03-text", "^TestC03_TxtReplay$", replay=True, replay_match="^text-"),
+]
+PROPS["C03"]["rule"] += (" Text engine: one fresh leader per case under a virtual clock, 1-3 text connections (plus, 30%, one binary "
+    "contender) served by the real Server.handle over in-memory connections; rapid draws 3-26 steps: LOCK/UNLOCK/PUSH with explicit "
+    "LOCK_ID, TIMEOUT 0-3, EXPRIED 1-5, COUNT/RCOUNT 1-3 on 1-3 keys (re-used LockIds, unlocks of own/foreign/unknown ids) and "
+    "clock ticks of 1-4 s, so holds expire and queued requests time out while a connection is idle or waits. Oracle per text "
+    "command: exactly one RESP reply; PUSH -> +OK; LOCK/UNLOCK -> 12-element result whose LOCK_ID, COUNT, RCOUNT are the command's "
+    "own, never result EXPRIED (a notice is not a terminal reply), result plausible for the lock table read before the command "
+    "(LOCK on a key without holder and queue: SUCCED; LockId already holding: SUCCED iff depth <= RCOUNT else LOCKED_ERROR; "
+    "otherwise SUCCED/TIMEOUT; UNLOCK: SUCCED iff the LockId held the key, else UNLOCK_ERROR/UNOWN_ERROR), LOCK SUCCED -> the "
+    "LockId holds the key with depth = LRCOUNT; a command that cannot queue (UNLOCK, PUSH, TIMEOUT 0) is answered at once, a "
+    "handler neither back in Read nor behind a queued request within 3 s = missing reply; no unsolicited reply. End: 6 s pass, no "
+    "command unanswered, no partial output, the reply channel of every idle text connection empty, and a probe LOCK on a private "
+    "free key per connection is answered SUCCED with its own LOCK_ID. Non-trivial: a hold of a text connection expired while it "
+    "had no command outstanding and the connection sent a lock-type command afterwards (about 28% of the cases).")
+PROPS["C03"]["assumptions"] += [
+    "text engine: flags 0, DbId 0, second granularity, no value operations, no wills, no closes before the end; a command for a connection that waits in a queue is skipped",
+    "text engine: a LockId is not re-used for LOCK/PUSH while a request bearing it is queued on the key; a re-stated hold keeps its Expried (shortened expiries are C06 matter)",
+    "text engine: plausibility uses the lock table read immediately before the command is sent (the harness is the only actor then); for a request that waited only SUCCED/TIMEOUT and the reply's identity are judged",
+    "text engine: the 3 s 'no reply' bound is a verdict only because every other goroutine of the instance is parked at that moment (VERIF_C03T_STUCK_MS)",
+]
